@@ -632,7 +632,7 @@ func c14Enumerate(maxLen int) [][]string {
 }
 
 func runC14(r *fw.Run) {
-	prefixes := c14Enumerate(r.Pick(4, 5))
+	prefixes := c14Enumerate(r.Pick(4, 7))
 	var hists []*c14Hist
 	for i, p := range prefixes {
 		for fi, f := range c14Finals {
@@ -640,10 +640,10 @@ func runC14(r *fw.Run) {
 			hists = append(hists, h)
 		}
 	}
-	r.Count("exhaustive_prefix_len", int64(r.Pick(4, 5)))
+	r.Count("exhaustive_prefix_len", int64(r.Pick(4, 7)))
 	// random longer histories
 	rng := rand.New(rand.NewSource(r.Seed*37 + 14))
-	for k := 0; k < r.Pick(300, 6000); k++ {
+	for k := 0; k < r.Pick(300, 20000); k++ {
 		var steps []string
 		n := 4 + rng.Intn(7)
 		for len(steps) < n {
@@ -994,7 +994,7 @@ func replayC14(r *fw.Run, raw json.RawMessage) {
 func init() {
 	fw.Register(&fw.Engine{
 		ID: "C14", Level: "exploration",
-		Rule: "(A) histories on a controlled net.Listener installed through the white-box accessor, DoListen running on it: every valid prefix over {connect, call, close, abort mid-frame, handler fails, cancel serving context, second Bind, second Listen} up to length 3 (quick) / 5 (thorough), each ended by Shutdown at each of 4 placements - while Accept is parked, inside SetDeadline (before accept), inside Accept just before it returns a connection (between accept and handler start), from another goroutine racing a new connection - plus seeded random histories of length 4..10; connections are in-memory pipes or unix socketpairs. Oracle on event order only: every accepted connection is closed by the service exactly when its end is reached (client close, abort, handler error, context cancel) and counted out (active count 0 at the end); Close was called on the installed listener by the time Shutdown returned; a connection offered after Shutdown returned is never served; the serving call does not return while accepted connections are open, returns nil once they have ended (refuted logically when the loop is parked in Accept on a listener nobody closed), and the same object then binds, serves a call and shuts down again; second Bind/Listen during serving return an error and the first serving call still answers. (B) real unix/TCP sockets, Listen and Bind+DoListen: clients loop dial+GetInfo while a controller cycles serve -> Shutdown (with idle, mid-frame and used connections held across it) -> wait -> serve again on the same address; successful calls, binds and shutdowns are recorded with call/return stamps from one logical clock and checked with porcupine against the model 'ok only while bound'. non-trivial = history with >= 1 step before the shutdown; distinct by hash of the history. Further placements: Shutdown called by a handler while it answers a call; Shutdown before, and racing with, the start of the serving call (60 / 600 runs); every third history re-serves the object a third time through Listen.",
+		Rule: "(A) histories on a controlled net.Listener installed through the white-box accessor, DoListen running on it: every valid prefix over {connect, call, close, abort mid-frame, handler fails, cancel serving context, second Bind, second Listen} up to length 4 (quick) / 7 (thorough), each ended by Shutdown at each of 4 placements - while Accept is parked, inside SetDeadline (before accept), inside Accept just before it returns a connection (between accept and handler start), from another goroutine racing a new connection - plus seeded random histories of length 4..10; connections are in-memory pipes or unix socketpairs. Oracle on event order only: every accepted connection is closed by the service exactly when its end is reached (client close, abort, handler error, context cancel) and counted out (active count 0 at the end); Close was called on the installed listener by the time Shutdown returned; a connection offered after Shutdown returned is never served; the serving call does not return while accepted connections are open, returns nil once they have ended (refuted logically when the loop is parked in Accept on a listener nobody closed), and the same object then binds, serves a call and shuts down again; second Bind/Listen during serving return an error and the first serving call still answers. (B) real unix/TCP sockets, Listen and Bind+DoListen: clients loop dial+GetInfo while a controller cycles serve -> Shutdown (with idle, mid-frame and used connections held across it) -> wait -> serve again on the same address; successful calls, binds and shutdowns are recorded with call/return stamps from one logical clock and checked with porcupine against the model 'ok only while bound'. non-trivial = history with >= 1 step before the shutdown; distinct by hash of the history. Further placements: Shutdown called by a handler while it answers a call; Shutdown before, and racing with, the start of the serving call (60 / 600 runs); every third history re-serves the object a third time through Listen.",
 		Assumptions: []string{"bounded progress: 10 s for a single step of the accept loop or the release of a connection, 20 s for the serving call to return", "the 8 ms drain grace and the 3 ms late-connection window are one-sided (a violation observed inside them is real; none observed proves nothing beyond them)"},
 		Run:         runC14, Replay: replayC14, CrashIsViolation: true, MinEvals: 100,
 		QuickTimeout: 15 * time.Minute, ThoroughTimeout: 60 * time.Minute,
